@@ -84,6 +84,31 @@ func init() {
 	}
 }
 
+func init() {
+	specs["C14"] = &propSpec{
+		id:    "C14",
+		level: "exploration",
+		rule: "one evaluation = one history: a generated construction/editing program over the public ir API (append globals, functions, blocks, ~25 kinds of instructions; set and replace terminators; name, rename and un-name values; insert and remove instructions) run as a builder task, interleaved at step boundaries by the seeded scheduler with an observer task (String, WriteTo, LLString of module/function/block/instruction/terminator/global, Type, Ident, String, Operands, Succs); " +
+			"oracle: the final String() is byte-identical to the final String() of the same program run with no observer, each double print is identical, nothing panics. " +
+			"distinct_nontrivial counts distinct histories (hash of the interleaved sequence of applied steps and applied observer calls) with at least one applied observer call and one context switch",
+		simulated:   []string{"interleaving of the builder task and the observer task (step granularity, seeded)"},
+		assumptions: []string{"steps are atomic: observation during a mutation is C13's subject", "a print observer is only offered a receiver all of whose blocks have terminators; operands are values of the same function; removed instructions have no users", "metadata definitions are not edited (the property lists globals, functions, blocks, instructions, terminators, names)", "sampling: a clean batch is evidence, not proof"},
+		procs:       1,
+		plain:       always,
+		shrinkTime:  90 * time.Second,
+		search: func(s *propSpec, b *build, a *agg) {
+			runs := int64(20000)
+			if tier == "thorough" {
+				runs = 3000000
+			}
+			if *flagRuns > 0 {
+				runs = *flagRuns
+			}
+			fanOut(a, b.plain, false, baseArgs(s, b), runs, numWorkers(), s.procs)
+		},
+	}
+}
+
 // selfTest: determinism of the simulator itself (see selftest.go for the
 // properties that have a scheduler); the default is a no-op success.
 func selfTest(spec *propSpec, b *build) int {
